@@ -111,7 +111,9 @@ def image(x):
     if isinstance(x, dict):
         if '$np' in x:
             v = x['v']
-            return float(np.float32(v)) if x['$np'] == 'float32' else v
+            if x['$np'] == 'array':
+                return list(v)
+            return float(getattr(np, x['$np'])(v)) if x['$np'].startswith('float') else int(v)
         if '$tuple' in x:
             return [image(v) for v in x['$tuple']]
         return {str(k): image(v) for k, v in x.items()}
@@ -164,6 +166,10 @@ def build_table(c):
     spec['smd'] = None if spec['smd'] is None else [None if m is None else realise(m) for m in spec['smd']]
     t = tables.build(spec)
     t.table_id = c['table_id']
+    if c.get('stored_zero') and t.shape[0] and t.shape[1]:
+        # the constructor eliminates caller-supplied zeros; put explicit zeros back the way
+        # subsample / transform leave them behind (same content, different representation)
+        t._data = tables._initial('csr_zero', np.asarray(t.matrix_data.todense(), dtype=float))
     return t
 
 
@@ -529,7 +535,7 @@ def gen_case(rng):
     return {'spec': spec, 'vkind': kind, 'idkind': idk, 'mdkind': mk,
             'table_id': rng.choice([None, 'tid', rand_string(rng, 'id')]),
             'generated_by': rng.choice(['gen', 'biom 2.1', rand_string(rng, 'g'), rand_string(rng)]),
-            'date': date, 'raws': raws, 'split': [rng.randint(0, 400) for _ in range(rng.randint(0, 3))]}
+            'stored_zero': rng.random() < 0.3, 'date': date, 'raws': raws, 'split': [rng.randint(0, 400) for _ in range(rng.randint(0, 3))]}
 
 
 def gen(rng, tier):
